@@ -848,7 +848,20 @@ where
             _ => continue,
         };
         let nlabels = range(&mut rng, 2, 3);
-        let (qs, ev) = query_set::<S>(&mut rng, &inst, nlabels, true);
+        let (mut qs, mut ev) = query_set::<S>(&mut rng, &inst, nlabels, true);
+        // every third case: two point labels carrying ONE point value with different polynomials under them
+        let equal_point_values = i % 3 == 1 && inst.polys.len() >= 2;
+        if equal_point_values {
+            qs = QuerySet::new();
+            ev = Evaluations::new();
+            let z = S::rand_point(&mut rng, &inst.sizes);
+            let z2 = S::rand_point(&mut rng, &inst.sizes);
+            for (j, p) in inst.polys.iter().enumerate() {
+                let (pl, pt) = match j { 0 => ("pt0", z.clone()), 1 => ("pt1", z.clone()), _ => ("pt2", z2.clone()) };
+                qs.insert((p.label().clone(), (pl.to_string(), pt.clone())));
+                ev.insert((p.label().clone(), pt.clone()), p.evaluate(&pt));
+            }
+        }
         let mut sp = fresh_sponge();
         let proof = match batch_open::<S>(&inst, &qs, &mut sp, &mut rng) {
             Ok(p) => p,
@@ -856,6 +869,44 @@ where
         };
         let proofs: Vec<SProof<S>> = proof.clone().into();
         let keys: Vec<(String, Pt<S>)> = ev.keys().cloned().collect();
+        if equal_point_values {
+            // Errors on the two polynomials tuned to the verifier's own (public, transcript-derived) challenges:
+            // `x_a·δ_p + x_b·δ_q = 0` for every ordered pair of challenges the verifier squeezes on this batch.
+            // Whatever the scheme's weighting, these are false claims and the batch must not be accepted — a
+            // verifier that adds the equations of two point labels sharing a point value accepts one of them.
+            let mut hsp = fresh_sponge();
+            let _ = batch_check::<S>(&inst, &inst.comms, &qs, &ev, &proof, &mut hsp, &mut rng.clone());
+            let mut xs: Vec<Fr> = vec![];
+            for x in hsp.challenges() {
+                if !x.is_zero() && !xs.contains(&x) && xs.len() < 4 {
+                    xs.push(x);
+                }
+            }
+            let (ka, kb) = (keys.iter().position(|k| k.0 == *inst.polys[0].label()), keys.iter().position(|k| k.0 == *inst.polys[1].label()));
+            if let (Some(ka), Some(kb)) = (ka, kb) {
+                let dd = rand_nonzero(&mut rng);
+                for (ia, xa) in xs.iter().enumerate() {
+                    for (ib, xb) in xs.iter().enumerate() {
+                        if ia == ib {
+                            continue;
+                        }
+                        let id = format!("{}/challenge-tuned@{},{}", id0, ia, ib);
+                        let mut ev2 = ev.clone();
+                        *ev2.get_mut(&keys[ka]).unwrap() += dd * ark_ff::Field::inverse(xa).unwrap();
+                        *ev2.get_mut(&keys[kb]).unwrap() -= dd * ark_ff::Field::inverse(xb).unwrap();
+                        let mut vsp = fresh_sponge();
+                        let out = batch_check::<S>(&inst, &inst.comms, &qs, &ev2, &proof, &mut vsp, &mut rng);
+                        if out.accepted() {
+                            ctx.rep.expect_fail(&id, &format!("{}/false-claim-accepted/challenge-tuned-equal-point-values", S::NAME),
+                                "batch with two false claims (errors tuned to the verifier's challenges, two point labels sharing one point value) accepted",
+                                fail_replay(&inst, &id, ctx.seed, &format!("evaluations of {} and {} perturbed by +D/x[{}], -D/x[{}]", keys[ka].0, keys[kb].0, ia, ib)));
+                        }
+                        ctx.rep.count(&format!("{}/plan-challenge-tuned", S::NAME));
+                    }
+                }
+                ctx.rep.case(&format!("{} challenge-tuned errors over {} challenges", inst.desc(), xs.len()), Some(format!("{}/{}/challenge-tuned", S::NAME, npoly)));
+            }
+        }
         // mutation plans: each is a set of evaluation keys to perturb
         let mut plans: Vec<(String, Vec<usize>, bool)> = vec![("honest".into(), vec![], false)];
         for k in 0..keys.len() {
